@@ -181,6 +181,23 @@ pub fn step(st: &mut St, backend: &str, toks: &[&str]) -> String {
         }
         // C17: feed `nbytes` bytes (byte i = pat_byte(seed, i mod 2^20)) through the real `update`
         // in 1 MiB calls
+        // one single `update` call with `nbytes` bytes (byte i = pat_byte(seed, i mod 2^20)): lengths
+        // beyond 2^29 / 2^32 bytes in ONE slice (the `stream` op feeds the same bytes in 1 MiB calls)
+        ["jh", "bigupd", slot, nbytes, seed] => {
+            let (Some(n), Some(sd)) = (num(nbytes), num(seed)) else {
+                return "bad-op".into();
+            };
+            let Some(h) = num(slot).and_then(|s| st.hashers.get_mut(&s)) else {
+                return "bad-op".into();
+            };
+            let chunk = pat_bytes(sd, 1 << 20);
+            let mut big = Vec::with_capacity(n as usize);
+            while big.len() < n as usize {
+                let k = (n as usize - big.len()).min(chunk.len());
+                big.extend_from_slice(&chunk[..k]);
+            }
+            update(h, &big)
+        }
         ["jh", "stream", slot, nbytes, seed] => {
             let (Some(n), Some(sd)) = (num(nbytes), num(seed)) else {
                 return "bad-op".into();
@@ -220,11 +237,17 @@ pub fn step(st: &mut St, backend: &str, toks: &[&str]) -> String {
                 None => "panic".into(),
             }
         }
-        ["jh", "finreset", slot] => {
+        ["jh", op @ ("finreset" | "finreset2"), slot] => {
             let Some(h) = num(slot).and_then(|s| st.hashers.get_mut(&s)) else {
                 return "bad-op".into();
             };
-            match guard(|| with!(h, x, Digest::finalize_reset(x).to_vec())) {
+            match guard(|| with!(h, x, if *op == "finreset" {
+                // in-place: finalize_into_dirty + Reset::reset
+                digest::FixedOutput::finalize_fixed_reset(x).to_vec()
+            } else {
+                // digest 0.9 `Digest::finalize_reset`: finalizes a clone, then resets
+                Digest::finalize_reset(x).to_vec()
+            })) {
                 Some(d) => hex_nodash(&d),
                 None => "panic".into(),
             }
